@@ -8,6 +8,7 @@ import (
 	"path/filepath"
 	"reflect"
 	"sort"
+	"strconv"
 	"strings"
 	"sync"
 	"time"
@@ -322,4 +323,40 @@ func cmdReplay(args []string) int {
 	}
 	fmt.Println("not reproduced")
 	return 0
+}
+
+// harnessUsesSQLModel: does the body of harness fn (or a helper in its file) switch the store to the SQL model?
+func harnessUsesSQLModel(src, fn string) bool {
+	i := strings.Index(src, "func "+fn+"(")
+	if i < 0 {
+		return false
+	}
+	body := src[i:]
+	if j := strings.Index(body[1:], "\nfunc "); j > 0 {
+		body = body[:j+1]
+	}
+	return strings.Contains(body, "vrt.SQLModel(") || strings.Contains(body, "qNew(")
+}
+
+// validateSQLModel runs the native differential test of internal/verifsql against the real modernc SQLite:
+// the real SQLiteStore methods run on random small tables on both, results and tables must agree.
+func validateSQLModel(tier string, seed int, work string) (string, error) {
+	ov, err := overlayFiles(nil)
+	if err != nil {
+		return "", err
+	}
+	ov[filepath.Join(repoRoot, "internal/queue/zz_verif_sqlmodel_validate_test.go")] = filepath.Join(verifRoot, "sqlmodel/validate/zz_verif_sqlmodel_validate_test.go")
+	ovJSON, _ := json.Marshal(map[string]any{"Replace": ov})
+	of := filepath.Join(work, "overlay-sqlmodel.json")
+	os.WriteFile(of, ovJSON, 0o644)
+	cmd := exec.Command("go", "test", "-mod=mod", "-tags", "verif", "-vet=off", "-count=1", "-timeout", "20m", "-overlay", of, "-run", "^TestVerifSQLModelDifferential$", "-v", "./internal/queue")
+	cmd.Dir = repoRoot
+	cmd.Env = append(os.Environ(), "VERIF_TIER="+tier, "VERIF_SEED="+strconv.Itoa(seed+1), "GOFLAGS=-mod=mod", "GOPROXY=off")
+	out, err := cmd.CombinedOutput()
+	for _, line := range strings.Split(string(out), "\n") {
+		if i := strings.Index(line, "VERIF-SQLMODEL-VALIDATION ok"); i >= 0 && err == nil {
+			return "sql-model validated against real SQLite (native differential, same store code on both): " + strings.TrimSpace(line[i+len("VERIF-SQLMODEL-VALIDATION ok"):]), nil
+		}
+	}
+	return "", fmt.Errorf("%v: %s", err, tail(string(out), 600))
 }
